@@ -115,7 +115,8 @@ def build_harness():
     t = time.time()
     alt = os.environ.get("VERIF_REPO")
     if alt:
-        h2 = os.path.join(WORK, "harness-alt")
+        # one private harness copy per scratch tree, so that two scratch runs (seeded / benign) can go on side by side
+        h2 = os.path.join(WORK, "harness-alt-" + re.sub(r"[^A-Za-z0-9]+", "_", alt).strip("_"))
         os.makedirs(h2, exist_ok=True)
         for name in ("src", ".cargo"):
             shutil.rmtree(os.path.join(h2, name), ignore_errors=True)
